@@ -243,7 +243,28 @@ def parseBody (strict : Bool) : Bytes → Option (PubKey × Bytes)
       | _ => none
     else none
 
-def parsePubBody : Bytes → Option (PubKey × Bytes) := parseBody false
+/-- the translator's report on repair D15d: both key parsers take the v6 octet count exactly -/
+def pubLenExactF : Bool :=
+  Gen.fixD15dV6PubLenExactBothParsers = 1 && Gen.fixD15dV6PubLenExactSecretParser = 1
+
+/-- the v6 octet count is non-zero and that many octets follow it (`Take::limit() == 0` after the
+parameters were read and `ensure!(len > 0)`, the two tests both parsers share after the repair) -/
+def v6CountExact : Bytes → Bool
+  | [] => true
+  | v :: t =>
+    if v = 6 then
+      match t with
+      | _ :: _ :: _ :: _ :: _ :: l0 :: l1 :: l2 :: l3 :: r' =>
+        decide (beNat [l0, l1, l2, l3] ≠ 0 ∧ beNat [l0, l1, l2, l3] ≤ r'.length)
+      | _ => true
+    else true
+
+/-- the two key parsers as the tree has them: after repair D15d both are the window-checking parser
+(`parseBody true`) on inputs whose count is non-zero and present in full; before, `parseBody strict` -/
+def parseBodyCur (strict : Bool) (b : Bytes) : Option (PubKey × Bytes) :=
+  if pubLenExactF then (if v6CountExact b then parseBody true b else none) else parseBody strict b
+
+def parsePubBody : Bytes → Option (PubKey × Bytes) := parseBodyCur false
 
 /-- secret-key packet: public fields, then the secret part (kept opaque) -/
 structure SecKey where
@@ -252,7 +273,7 @@ structure SecKey where
 deriving DecidableEq, Repr
 
 def parseSecBody (inp : Bytes) : Option SecKey :=
-  match parseBody true inp with
+  match parseBodyCur true inp with
   | some (k, rest) => some { details := k, secret := rest }
   | none => none
 
